@@ -6,6 +6,7 @@ package seqd
 import (
 	"fmt"
 	"math/rand"
+	"strings"
 
 	"github.com/biogo/biogo/alphabet"
 	"github.com/biogo/biogo/seq"
@@ -46,14 +47,18 @@ func ls(cs []cell) []alphabet.Letter {
 	return out
 }
 
+// linearOf builds a linear sequence whose letter slice has spare capacity (as a recycled or preallocated
+// buffer has), so that copies which merely re-slice are told apart from copies which allocate.
 func linearOf(kindq bool, r row, id string) seq.Sequence {
 	if kindq {
 		s := linear.NewQSeq(id, qls(r.Cells), alpha, alphabet.Sanger)
+		s.Seq = append(make(alphabet.QLetters, 0, len(s.Seq)+3), s.Seq...)
 		s.Offset = r.Off
 		s.Strand = seq.Strand(r.Strand)
 		return s
 	}
 	s := linear.NewSeq(id, ls(r.Cells), alpha)
+	s.Seq = append(make(alphabet.Letters, 0, len(s.Seq)+3), s.Seq...)
 	s.Offset = r.Off
 	s.Strand = seq.Strand(r.Strand)
 	return s
@@ -327,6 +332,8 @@ func (m *model) apply(e vt.Ev) {
 			r := &m.rows[i]
 			r.Off = s + en - (r.Off + len(r.Cells))
 		}
+	case "cloneappend":
+		m.rows[0].Cells = append(m.rows[0].Cells, cell{})
 	case "add":
 		for range e["news"].([]row) {
 			m.rows = append(m.rows, row{Off: 0, Cells: make([]cell, len(m.rows[0].Cells))})
@@ -439,7 +446,7 @@ func Histories(w *vt.W, rng *rand.Rand, n int, small bool) {
 			e["obs"] = observe(kind, c)
 			w.Emit(e)
 			m.apply(e)
-			if e["obs"].(obs).Panic != "" || e["err"] != "" {
+			if e["obs"].(obs).Panic != "" || (e["err"] != "" && e["op"] != "badappendcolumns") {
 				break
 			}
 		}
@@ -469,7 +476,48 @@ func edit(rng *rand.Rand, m *model, kind string, c interface{}) (vt.Ev, interfac
 		Reverse()
 	}
 	for try := 0; try < 20; try++ {
-		switch rng.Intn(13) {
+		switch rng.Intn(15) {
+		case 14: // AppendColumns with good columns followed by one of the wrong height: an error, and nothing appended
+			if single {
+				continue
+			}
+			k := 2 + rng.Intn(2)
+			cols := make([][]cell, k)
+			bufs := make([][]alphabet.QLetter, k)
+			for j := range cols {
+				h := nrows
+				if j == k-1 {
+					h = nrows + []int{-1, 1, 2}[rng.Intn(3)]
+				}
+				cols[j] = randCells(rng, h, q)
+				bufs[j] = qls(cols[j])
+			}
+			es := guardErr(func() error { return appendColumns(c, bufs) })
+			return vt.Ev{"op": "badappendcolumns", "cols": cols, "err": es, "rejected": es != "" && !strings.HasPrefix(es, "panic")}, c
+		case 13: // clone, then append to the original and to the clone: neither append may show in the other
+			if !single {
+				continue
+			}
+			c1, c2 := randCell(rng, q), randCell(rng, q)
+			var co obs
+			es := guardErr(func() error {
+				cc := cloneOf(c)
+				type app interface {
+					AppendQLetters(...alphabet.QLetter) error
+				}
+				if err := c.(app).AppendQLetters(alphabet.QLetter{L: alphabet.Letter(c1[0]), Q: alphabet.Qphred(c1[1])}); err != nil {
+					return err
+				}
+				if err := cc.(app).AppendQLetters(alphabet.QLetter{L: alphabet.Letter(c2[0]), Q: alphabet.Qphred(c2[1])}); err != nil {
+					return err
+				}
+				co = observe(kind, cc)
+				return nil
+			})
+			if co.Rows == nil {
+				co.Rows = []row{}
+			}
+			return vt.Ev{"op": "cloneappend", "c": c1, "c2": c2, "cloneobs": co.Rows, "err": es}, c
 		case 12: // RevComp / Reverse of one row through the row view
 			if single {
 				continue
